@@ -738,17 +738,28 @@ func (in *Interp) evalObj(kv []*ast.Node, data val.Value, env *Env) (val.Value, 
 	var errs []*Err
 	for _, key := range order {
 		g := groups[key]
-		sub := items
-		if n := len(g.idx); n != 0 && n != len(items) {
-			sub = make([]val.Value, n)
+		// the value is evaluated over the items that produced the key: the
+		// whole context as it is for a literal key, the item itself for one
+		// item, the array of items otherwise
+		var vctx val.Value
+		switch n := len(g.idx); {
+		case n == 0:
+			vctx = data
+		case n == 1:
+			vctx = items[g.idx[0]]
+		case n == len(items):
+			vctx = val.A(items...)
+		default:
+			sub := make([]val.Value, n)
 			for i, j := range g.idx {
 				sub[i] = items[j]
 			}
+			vctx = val.A(sub...)
 		}
 		if len(g.idx) >= 2 {
 			in.Trace.Grouped = true
 		}
-		v, err := in.Eval(kv[g.pair+1], val.A(sub...), env)
+		v, err := in.Eval(kv[g.pair+1], vctx, env)
 		if err != nil {
 			errs = append(errs, err)
 			continue
